@@ -18,18 +18,18 @@ def pool(M, ctx):
     rng = ctx.rng("pool")
     mild = dict(jitter=0.05, strength=0.2, min_angle=20.0)
     out = [("icosa_r2", M.distort(M.refine(M.icosahedron(), 2), rng, **mild)),
-           ("cube_r2", M.distort(M.refine(M.cube(face_domains=True), 2), rng, **mild)),
-           ("lprism_r2", M.distort(M.refine(M.l_prism(), 2), rng, **mild)),
-           ("torus20x10", M.distort(M.torus(20, 10), rng, **mild)),
-           ("two_solids_r2", M.refine(M.two_solids(), 2))]
+           ("cube_r3", M.distort(M.refine(M.cube(face_domains=True), 3), rng, **mild)),
+           ("two_solids_r3", M.refine(M.two_solids(), 3))]
     if not ctx.quick:
-        out += [("octa_r3", M.distort(M.refine(M.octahedron(), 3), rng, **mild)),
+        out += [("lprism_r3", M.distort(M.refine(M.l_prism(), 3), rng, **mild)),
+                ("torus36x18", M.distort(M.torus(36, 18, R=1.0, r=0.45), rng, **mild)),
+                ("octa_r3", M.distort(M.refine(M.octahedron(), 3), rng, **mild)),
                 ("shell_r2", M.refine(M.nested_shell(), 2)),
                 ("voxring_r2", M.distort(M.refine(M.voxel_ring(), 2), rng, **mild)),
                 ("dented_r1", M.distort(M.refine(M.dented_block(), 1), rng, **mild)),
                 ("ellipsoid", M.distort(M.project_to_ellipsoid(M.refine(M.icosahedron(), 2), (1.0, 0.7, 0.5)), rng, **mild)),
                 ("tetra_r3", M.distort(M.refine(M.tetrahedron(), 3), rng, **mild))]
-        for name, m in list(out[:4]):
+        for name, m in list(out[:3]):
             for s, t in ((1e-3, 0.0), (1e3, 0.0), (1.0, 1e3)):
                 mm = M.scale(m, s)
                 mm.V = mm.V + t * mm.diameter() * np.array([[0.3], [-0.5], [0.8]])
